@@ -54,7 +54,7 @@ class Spec:
 
     # ---- ids / events
     def fresh(self):
-        if self.kind != "t":
+        if self.kind not in ("t", "p"):
             return 0
         i = self.next
         self.next += 1
@@ -62,7 +62,7 @@ class Spec:
 
     def given(self, val, ev):
         i = self.fresh()
-        if self.kind != "b":
+        if self.kind not in ("b", "u"):
             ev.append(f"G{i}")
         return (i, 0 if self.kind == "z" else val)
 
@@ -70,21 +70,21 @@ class Spec:
         return (self.fresh(), 0 if self.kind == "z" else val)
 
     def produced(self, ev):
-        if self.kind != "t":
+        if self.kind not in ("t", "p"):
             return (0, 0)
         i = self.fresh()
         ev.append(f"G{i}")
         return (i, i)
 
     def clone(self, e, ev):
-        if self.kind != "t":
+        if self.kind not in ("t", "p"):
             return e
         i = self.fresh()
         ev.append(f"C{i}<{e[0]}")
         return (i, e[1])
 
     def drop(self, e, ev):
-        if self.kind != "b":
+        if self.kind in ("t", "z"):
             ev.append(f"D{e[0]}")
 
     # ---- core
